@@ -151,6 +151,7 @@ def run(ctx):
     window_rule(ctx, syn)
     idxspace_rule(ctx, syn)
     trim_rule(ctx, syn)
+    case_rule(ctx, syn)
     r_seg = ctx.rule("C07.SEG", "SegmentationIter::next returns cursor..X and advances cursor to the same X; it stops only when cursor >= end")
     sg = syn.fn("next", self_ty="SegmentationIter", trait="Iterator")
     ctx.functions_analysed.add(sg.qual)
@@ -223,6 +224,15 @@ def window_rule(ctx, syn):
                     for st_ in blk["stmts"]:
                         if st_.get("k") == "exprstmt" and st_["e"].get("k") == "assign" and unparse(st_["e"]["left"]) == "self.offset" and unparse(strip(st_["e"]["right"])) == "Offset::whole()":
                             resets_ok.add(id(st_["e"]))
+        # ... and the converse: moving on to the next resource starts that resource from the beginning again
+        for blk in walk(f.body):
+            if blk.get("k") == "block":
+                srcs = [unparse(st_.get("e")) if st_.get("k") == "exprstmt" else "" for st_ in blk["stmts"]]
+                if any(re.fullmatch(r"\(?self\.resourcecursor\+=1\)?", x_) for x_ in srcs):
+                    n += 1
+                    r.hit("%s|next-resource#%d" % (f.qual, n))
+                    if not any(re.fullmatch(r"self\.offset=Offset::whole\(\)", x_) for x_ in srcs):
+                        ctx.report(r, "%s|next-resource-without-reset" % f.qual, "%s moves on to the next resource without resetting its search window to the whole text: the next resource is searched only from where the last hit in the previous one ended (hits before that position are lost, a shorter resource is skipped entirely)" % f.qual, f.file, blk["stmts"][0].get("l"))
         for a in find(f.body, "assign"):
             if unparse(a["left"]) != "self.offset":
                 continue
@@ -376,3 +386,34 @@ def trim_rule(ctx, syn):
         except (Unknown, Panic) as e:
             ctx.report(r, "unevaluated:" + name, "%s could not be evaluated (%s): that trimming agrees with str::trim_matches is not established" % (fn.qual, e), fn.file, fn.line)
     ctx.floor(r, n, 60, "texts evaluated")
+
+
+def case_rule(ctx, syn):
+    """case-insensitive search compares a case-mapped copy of the text with the needle: both must go through the same
+    mapping (str::to_lowercase is full Unicode, to_ascii_lowercase leaves É, Ö, Θ alone)"""
+    r = ctx.rule("C07.CASE", "every constructor of FindNoCaseTextIter normalises the needle with the same case mapping that the iterator applies to the text it searches")
+    nx = [f for f in syn.fns if f.name == "next" and "FindNoCaseTextIter" in (f.self_ty or "") and f.body is not None]
+    if len(nx) != 1:
+        ctx.anchor_missing(r, "FindNoCaseTextIter::next")
+        return
+    MAPS = ("to_lowercase", "to_ascii_lowercase", "to_uppercase", "to_ascii_uppercase")
+    text_maps = set(m["method"] for m in walk(nx[0].body) if m.get("k") == "mcall" and m["method"] in MAPS)
+    r.hit("iterator", sample={"text_mapping": sorted(text_maps)})
+    if len(text_maps) != 1:
+        ctx.report(r, "iterator-mapping", "FindNoCaseTextIter::next applies %s to the text: the reference mapping is not unique" % sorted(text_maps), nx[0].file, nx[0].line)
+        return
+    tm = sorted(text_maps)[0]
+    n = 0
+    for fn in syn.fns:
+        if not fn.body:
+            continue
+        for lit in walk(fn.body):
+            if lit.get("k") == "structlit" and lit["path"][-1] == "FindNoCaseTextIter":
+                for fl in lit["fields"]:
+                    if fl["name"] == "fragment":
+                        n += 1
+                        ms = [m["method"] for m in walk(fl["e"]) if m.get("k") == "mcall" and m["method"] in MAPS]
+                        r.hit("%s#%d" % (fn.qual, n), sample={"constructor": fn.qual, "needle_mapping": ms})
+                        if ms != [tm]:
+                            ctx.report(r, "%s|needle" % fn.qual, "%s normalises the needle with %s while the iterator maps the text with %s: a needle with a non-ASCII upper-case letter (É, Ö, Θ) never matches although the plain lower-cased search finds it" % (fn.qual, ms or "nothing", tm), fn.file, fl["e"].get("l"))
+    ctx.floor(r, n, 4, "constructors of FindNoCaseTextIter")
